@@ -9,6 +9,8 @@ import ChibiVerif.Model.Linkage
 
 namespace ChibiVerif.Linkage
 
+variable [Rules]
+
 /-- two objects that differ at most in their type -/
 def SameButTy (b a : Obj) : Prop := ∃ t, b = { a with ty := t }
 
@@ -152,7 +154,7 @@ theorem scan_tyRel (all : List Obj) : ∀ (n : Nat) (l l' : List Obj), TyRel l l
         · simp only [if_true]
           exact ih as bs hrest hn'
 
-theorem scanGlobals_tyRel (gs : List Obj) : TyRel (scanPure gs gs) (scanGlobals gs) :=
+theorem scanCore_tyRel (gs : List Obj) : TyRel (scanPure gs gs) (scanCore gs) :=
   scan_tyRel gs gs.length gs gs (TyRel.rfl' gs) (Nat.le_refl _)
 
 /-! ### counting on `scanPure` -/
